@@ -282,7 +282,17 @@ void *__wrap_calloc(size_t a, size_t b)
 void *__wrap_realloc(void *old, size_t n)
 {
 	if (!t_lib_active)
-		return __real_realloc(old, n);
+	{
+		// e.g. the harness serialises a tree outside a library scope and json-c grows a tracked print buffer
+		bool was_live = old && !g_alloc.live.empty() && g_alloc.live.count(old);
+		void *q = __real_realloc(old, n);
+		if (q && was_live)
+		{
+			live_del(old);
+			live_add(q, n);
+		}
+		return q;
+	}
 	int sv = t_lib_active;
 	t_lib_active = 0;
 	void *p = nullptr;
